@@ -616,6 +616,8 @@ class Bf3File:
             ) * 0x10000 + fwtag_rdr.read_int(2)
             payload = fwtag_rdr.read(payload_len)
             if payload_offs != cur_block_end_adr and cur_block:
+                if cur_block_start_adr in blocks:
+                    raise Bf3FileFormatError("BF2 data lines overlap")
                 blocks[cur_block_start_adr] = b"".join(cur_block)
                 cur_block = []
                 cur_block_start_adr = payload_offs
@@ -624,6 +626,8 @@ class Bf3File:
                 cur_block_start_adr = payload_offs
             cur_block_end_adr = payload_offs + payload_len
         if cur_block:
+            if cur_block_start_adr in blocks:
+                raise Bf3FileFormatError("BF2 data lines overlap")
             blocks[cur_block_start_adr] = b"".join(cur_block)
         return blocks
 
